@@ -430,27 +430,30 @@ Fixpoint explain (fuel : nat) (c : cfg) (may_stop may_close : bool) (s : st) (rs
       match s_phase s with
       | Completed => match rs, ob with [], [] => true | _, _ => false end
       | ph =>
-          (* the deterministic next move of the handler *)
-          (match ph with
-           | Idle => try (step c s EvCheck) rs
-           | Picked =>
-               if negb (get_error (s_closed s) (s_stopped s) (s_fderr s) true =? 0) then try (step c s (EvPerform [])) rs
-               else let '(g, r) := split_group rs in
-                    match first_result g with
-                    | Some (Got bs) => (zlen bs <=? req_len c (s_op s)) && try (step c s (EvPerform g)) r
-                    | Some _ => try (step c s (EvPerform g)) r
-                    | None => false
-                    end
-           | Performed _ => try (step c s EvAct) rs
-           | Completed => false
-           end)
+          (* the deterministic next move of the handler (if-then-else, not orb: vm_compute is call-by-value) *)
+          if (match ph with
+              | Idle => try (step c s EvCheck) rs
+              | Picked =>
+                  if negb (get_error (s_closed s) (s_stopped s) (s_fderr s) true =? 0) then try (step c s (EvPerform [])) rs
+                  else let '(g, r) := split_group rs in
+                       match first_result g with
+                       | Some (Got bs) => if zlen bs <=? req_len c (s_op s) then try (step c s (EvPerform g)) r else false
+                       | Some _ => try (step c s (EvPerform g)) r
+                       | None => false
+                       end
+              | Performed _ => try (step c s EvAct) rs
+              | Completed => false
+              end) then true
           (* asynchronous events *)
-          || (may_stop && negb (s_stopped s) && try (step c s EvStop) rs)
-          || (o_interval (s_op s) &&
-              let s' := step c s EvTimer in
-              (negb (length (s_calls s') =? length (s_calls s))%nat || (is_active s && o_strict (s_op s) && negb (o_flagd (s_op s))))
-              && try s' rs)
-          || ((s_stopped s || negb (s_fderr s =? 0)) && negb (is_active s) && try (step c s EvCleanup) rs)
+          else if (if may_stop then if s_stopped s then false else try (step c s EvStop) rs else false) then true
+          else if (if o_interval (s_op s) then
+                     let s' := step c s EvTimer in
+                     if negb (length (s_calls s') =? length (s_calls s))%nat
+                        || (is_active s && o_strict (s_op s) && negb (o_flagd (s_op s)))
+                     then try s' rs else false
+                   else false) then true
+          else if (s_stopped s || negb (s_fderr s =? 0)) && negb (is_active s) then try (step c s EvCleanup) rs
+          else false
       end
   end.
 
@@ -481,9 +484,11 @@ Definition explain_op (c : cfg) (may_stop may_close : bool) (o : op) (rs : list 
     | Some k => match rs, ob with [], [x] => obs_eqb (call_obs k) x | _, _ => false end
     | None => false
     end in
-  imm false false || (may_close && imm true false) || (may_stop && imm false true)
-  || (negb (o_length o =? 0) &&
-      explain (4 * length rs + 4 * length ob + 24) c may_stop may_close (st_init o) rs ob).
+  if imm false false then true
+  else if (if may_close then imm true false else false) then true
+  else if (if may_stop then imm false true else false) then true
+  else if o_length o =? 0 then false
+  else explain (4 * length rs + 4 * length ob + 24) c may_stop may_close (st_init o) rs ob.
 
 (* a data object of n zero bytes in one region (the model's control flow never looks at byte values) *)
 Definition zeros (n : Z) : list Z := repeat 0 (Z.to_nat n).
